@@ -338,16 +338,26 @@ fn apply_stack_effects(fun_builder: &mut FunBuilder, instructions: &mut [Symboli
   // the depth each label is entered with, recorded by the transfers that target it
   let mut label_slots: HashMap<u32, i32> = HashMap::new();
   let mut fallthrough = true;
+  let mut reachable = true;
 
   for instruction in instructions {
     // code after an unconditional transfer is only reached through its label,
-    // so it continues with the depth of the jumps that arrive there
+    // so it continues with the depth of the jumps that arrive there. A label
+    // no transfer arrives at (both branches of an if left the loop) starts dead code
     if let SymbolicByteCode::Label(label) = instruction {
-      if let Some(target_slots) = label_slots.get(&label.val()) {
-        if !fallthrough {
-          slots = *target_slots;
+      if !fallthrough {
+        match label_slots.get(&label.val()) {
+          Some(target_slots) => {
+            slots = *target_slots;
+            reachable = true;
+          },
+          None => reachable = false,
         }
       }
+    }
+
+    if !reachable {
+      continue;
     }
 
     if let SymbolicByteCode::PushHandler((_, label)) = instruction {
